@@ -18,6 +18,19 @@ pub fn spawn_unipayload_handler(
     cluster_id: ClusterId,
     tx_changes: CorroSender<(ChangeV1, ChangeSource)>,
 ) {
+    spawn_unipayload_handler_with(tripwire, conn, move || cluster_id, tx_changes)
+}
+
+/// Same as [`spawn_unipayload_handler`], but the cluster id is looked up for every
+/// payload: a connection outlives a change of the node's cluster id.
+pub fn spawn_unipayload_handler_with<F>(
+    tripwire: &Tripwire,
+    conn: &quinn::Connection,
+    cluster_id: F,
+    tx_changes: CorroSender<(ChangeV1, ChangeSource)>,
+) where
+    F: Fn() -> ClusterId + Clone + Send + Sync + 'static,
+{
     tokio::spawn({
         let conn = conn.clone();
         let mut tripwire = tripwire.clone();
@@ -46,6 +59,7 @@ pub fn spawn_unipayload_handler(
 
                 tokio::spawn({
                     let tx_changes = tx_changes.clone();
+                    let cluster_id = cluster_id.clone();
                     async move {
                         let mut framed = FramedRead::new(
                             rx,
@@ -72,7 +86,7 @@ pub fn spawn_unipayload_handler(
                                                         )),
                                                     cluster_id: payload_cluster_id,
                                                 } => {
-                                                    if cluster_id != payload_cluster_id {
+                                                    if cluster_id() != payload_cluster_id {
                                                         continue;
                                                     }
                                                     changes.push((change, ChangeSource::Broadcast));
